@@ -43,12 +43,12 @@ AllLegacy == {"set_node", "unsubscriptable", "meta_dunder", "marker", "duck", "c
 ASSUME Legacy \subseteq AllLegacy
 ASSUME SpecMut \in {"none", "no_guard", "union_drops_last", "abc_too_narrow"}
 \* the named repairs of the intended design (each is one root cause of the faithful one)
-RC_SetNode    == "set_node" \in Legacy      \* the Set node of the automaton carries the BUILTIN set as hint factory
-RC_Unsubscr   == "unsubscriptable" \in Legacy      \* unsubscriptable subclasses of builtin views (odict_keys) are subscripted
-RC_MetaDunder == "meta_dunder" \in Legacy      \* dunder methods are looked up on the class object incl. metaclass attributes
-RC_Marker     == "marker" \in Legacy      \* the recursion placeholder is an ordinary class that rejects every object
-RC_Duck       == "duck" \in Legacy      \* the automaton's ABC is trusted although the object is not an instance of it
-RC_CounterVal == "counter_val" \in Legacy      \* a Counter is always inferred as Counter[key] (= values int), whatever its values
+RC_SetNode    == "set_node" \in Legacy        \* the Set node of the automaton carries the BUILTIN set as hint factory
+RC_Unsubscr   == "unsubscriptable" \in Legacy \* unsubscriptable subclasses of builtin views (odict_keys) are subscripted
+RC_MetaDunder == "meta_dunder" \in Legacy     \* dunder methods are looked up on the class object incl. metaclass attributes
+RC_Marker     == "marker" \in Legacy          \* the recursion placeholder is an ordinary class that rejects every object
+RC_Duck       == "duck" \in Legacy            \* the automaton's ABC is trusted although the object is not an instance of it
+RC_CounterVal == "counter_val" \in Legacy     \* a Counter is always inferred as Counter[key] (= values int), whatever its values
 
 (* ---------------------------------------------------------- extended classes *)
 XSeqCls  == {"range", "UMSeq", "MyList", "DSeq"}
